@@ -168,6 +168,104 @@ def sweep(ctx):
     return rows, meta
 
 
+def loop_level(ctx):
+    """The server endpoint as the network reaches it: forged datagrams from the client's own address go through datagramReceived and the
+    real server loop while the connection is half-open (keyed, waiting for the challenge response) and while it is established."""
+    import srvworld as SW
+    from gateworld import snapshot
+    ADDR = ("10.3.0.1", 3001)
+    rows, meta = [], []
+    crc32 = impl.mod("crypto").crc32
+    for sitname in ("half-open", "established"):
+        kinds = [("crc", t, n) for t in (1, 2, 3, 4, 5, 6, 7) for n in (0, 1, 2)] + [("otherkey", t, 1) for t in (3, 4, 6)] + [("random", t, 0) for t in (3, 4, 5, 6, 7)] + \
+                [("flip", 0, 0), ("truncate", 0, 0), ("retype", 3, 0), ("retype", 5, 0), ("retype", 6, 0)]
+        for kind, htype, n in kinds:
+            w = SW.ServerWorld(seed=ctx.seed, conn_timeout=30.0, temp_timeout=30.0)
+            try:
+                C = w.C
+                cl = w.add_client(1, ADDR, conn_timeout=30.0)
+                c = w.clients[1]
+                c["cut"] = True                  # the harness carries the client's datagrams by hand
+                w.tick()
+                hello = next(d for d in w.seen_from[ADDR] if d[12] == 1)
+                w.inject(hello, ADDR, kind="client", genuine=1)
+                for _ in range(8):
+                    w.tick()
+                    if any(d[12] == 3 for d in w.seen_from[ADDR]):
+                        break
+                crs = [d for d in w.seen_from[ADDR] if d[12] == 3]
+                if not crs or ADDR not in w.ctxt.temp_connections:
+                    raise Machinery("loop level: the honest handshake did not reach the half-open state")
+                held = crs[0]                     # the genuine challenge response, not yet delivered
+                if sitname == "established":
+                    w.inject(held, ADDR, kind="client", genuine=1)
+                    w.tick()
+                    w.tick()
+                    if ADDR not in w.ctxt.connections:
+                        raise Machinery("loop level: the honest handshake did not complete")
+                    n0 = len(w.seen_from[ADDR])
+                    cl.send(w.aid(ADDR).to_bytes(4, "big") + b"DATAheld-back")
+                    for _ in range(8):
+                        w.tick()
+                        if any(d[12] == 6 for d in w.seen_from[ADDR][n0:]):
+                            break
+                    held = next((d for d in w.seen_from[ADDR][n0:] if d[12] == 6), None)   # a genuine application datagram, not yet delivered
+                    if held is None:
+                        raise Machinery("loop level: no genuine application datagram recorded")
+                pool = w.ctxt.temp_connections if sitname == "half-open" else w.ctxt.connections
+                conn = pool[ADDR]
+                cur = int(conn.bitfield_pkt.current_seqnum)
+                seq = C.SeqNum((cur + 4) % 65535 + 1)
+                if kind == "crc":
+                    hdr = C.PacketHeader.create(False, int(w.vt.time()), C.PacketType(htype), seq, C.SeqNum(1), 0xFFFFFFFF)
+                    msgs = [C.PendingMessage(C.SeqNum(900 + i), C.PacketType(htype), b"EVIL%d" % i, None, C.RetryMode.NONE) for i in range(n)]
+                    raw = C.Packet.create(hdr, msgs).to_bytes(None)
+                elif kind == "otherkey":
+                    hdr = C.PacketHeader.create(False, int(w.vt.time()), C.PacketType(htype), seq, C.SeqNum(1), 0)
+                    raw = C.Packet.create(hdr, [C.PendingMessage(C.SeqNum(901), C.PacketType(htype), b"otherkey", None, C.RetryMode.NONE)]).to_bytes(b"k" * 16)
+                elif kind == "random":
+                    hdr = C.PacketHeader.create(False, int(w.vt.time()), C.PacketType(htype), seq, C.SeqNum(1), 0)
+                    raw = hdr.to_bytes()[:20] + os.urandom(40)
+                elif kind == "flip":
+                    t = bytearray(held)
+                    t[len(t) - 3] ^= 0x10
+                    raw = bytes(t)
+                elif kind == "truncate":
+                    raw = held[:len(held) - 5]
+                else:
+                    t = bytearray(held)
+                    if t[12] == htype:
+                        continue
+                    t[12] = htype
+                    raw = bytes(t)
+                before = snapshot(conn)
+                ev0 = len(w.ev)
+                w.inject(raw, ADDR, kind="forged")
+                w.tick()
+                w.tick()
+                after = snapshot(conn)
+                changed = sorted(k for k in after if after[k] != before[k] and k not in ("out", "seqs", "pend", "rmsg", "retry"))      # (the loop itself keeps sending keep-alives)
+                if pool.get(ADDR) is not conn:
+                    changed.append("removed-from-pool")
+                hev = [e["what"] for e in w.ev[ev0:] if e["ev"] == "h" and e["what"] in ("connect", "disconnect", "msg")]
+                # the genuine datagram that was held back must still do its work afterwards
+                w.inject(held, ADDR, kind="client", genuine=1)
+                w.tick()
+                w.tick()
+                after_ev = [e["what"] for e in w.ev[ev0:] if e["ev"] == "h" and e["what"] in ("connect", "msg")]
+                want = "connect" if sitname == "half-open" else "msg"
+                if want not in after_ev:
+                    changed.append("genuine-%s-no-longer-accepted" % want)
+                o = dict(ret="false", changed=changed, app=int(bool(hev)), keychg=int(any(after[k] != before[k] for k in ("key", "token", "status"))), dropped=0, expect="noeffect")
+                rows.append(o)
+                meta.append((dict(side="server loop, " + sitname, keyed=True), dict(kind=kind, htype=htype, count=n), raw))
+                ctx.case(("loop", sitname, kind, htype, n))
+            finally:
+                w.close()
+    ctx.extra["server_loop_injections"] = len(rows)
+    return rows, meta
+
+
 def run(ctx):
     ctx.level = "model_checking"
     ctx.rule = ("table: one injection per (situation, datagram class) enumerated by TLC; sweep: one injection per byte-level mutation of a genuine datagram; distinct = injections; "
@@ -187,6 +285,9 @@ def run(ctx):
         rows2, meta2 = sweep(ctx)
         rows += rows2
         meta += meta2
+        rows3, meta3 = loop_level(ctx)
+        rows += rows3
+        meta += meta3
         path = os.path.join(wd, "obs.json")
         open(path, "w").write(json.dumps(rows))
         j = ctx.mc("Obs_Gate", "INIT ObsInit\nNEXT GNext\nINVARIANT AllOK\nALIAS Where\nCHECK_DEADLOCK FALSE\n", env=dict(OUT_FILE=path, OBS_FILE=path), coverage=False,
